@@ -236,6 +236,13 @@ Definition gram_face (V : list vec) (it : Z * (face * (vec * vec))) : mat :=
 Definition gram (V : list vec) (F : list face) (bases : list (vec * vec)) : mat :=
   flat_map (gram_face V) (indexed (combine F bases)).
 
+(* Re(G^* . A . G) literally, with the model's sparse products: G^* is the conjugate transpose, A = diag(face areas)
+   (area_weight_matrix_faces), so the real part is  Gre^T A Gre + Gim^T A Gim *)
+Definition gag_re (V : list vec) (F : list face) (bases : list (vec * vec)) : mat :=
+  let G := gradient_complex V F bases in
+  let A := diag (areas V F) in
+  mmul O (transpose (re_part G)) (mmul O A (re_part G)) ++ mmul O (transpose (im_part G)) (mmul O A (im_part G)).
+
 (* ------------------------------------------------------------------ mass.py *)
 (* A[u] += w[iT] for u in T *)
 Definition vertex_acc (n : Z) (F : list face) (w : list T) : list T :=
@@ -315,3 +322,20 @@ Definition tl_gen (nb : Z -> list Z) (nc : Z) : mat :=
 Definition laplacian_tetrahedra (C : list cell) : mat := tl_gen (cell_nbrs C) (zlen C).
 
 End Model.
+
+(* ------------------------------------------------------------------ decidable mesh conditions (evaluated on every generated case) *)
+(* cell_to_cell is symmetric (with multiplicities) and stays in range: what the tetrahedral dual Laplacian's symmetry needs *)
+Definition cell_adjacency_ok (C : list cell) : bool :=
+  let nc := zlen C in
+  forallb (fun a =>
+     forallb (fun b => Nat.eqb (count_occ Z.eq_dec (cell_nbrs C a) b) (count_occ Z.eq_dec (cell_nbrs C b) a)) (zrange nc)
+     && forallb (fun b => (0 <=? b) && (b <? nc)) (cell_nbrs C a)) (zrange nc).
+
+(* the stored edge list covers the three half-edges of every face exactly once: for each face index t, exactly three
+   (edge, side) slots have t as their direct face *)
+Definition edge_slots (E : list edge) : list (Z * Z) := flat_map (fun e : edge => let '(a, b) := e in [(a, b); (b, a)]) E.
+Definition slot_is (F : list face) (t : Z) (d : Z * Z) : bool :=
+  match direct_face_id F (fst d) (snd d) with Some t' => t' =? t | None => false end.
+Definition edge_cover_ok (F : list face) (E : list edge) : bool :=
+  forallb (fun t => Nat.eqb (length (filter (slot_is F t) (edge_slots E))) 3) (zrange (zlen F)).
+
